@@ -38,7 +38,7 @@ m = {
     }],
     "checks": checks,
     "not_applicable": [{"property_id": k, "reason": v} for k, v in sorted(NOT_APPLICABLE.items()) if k not in PROPS],
-    "notes": "See DESIGN.md. known_findings.json lists repaired defects (status fixed: suppress nothing).",
+    "notes": "See DESIGN.md (sections 14-16 describe the machinery as built, the seeded changes it was tried on and the alarms it raised on the unchanged tree). known_findings.json lists the nine repaired defects (status fixed: suppress nothing) and two open findings, each identified by its input class: C08 interval-defined time flagged extreme by an only-if-invalid policy, C16 -180.0 exactly on the Kaaba's antimeridian; their checks print one KNOWN-FINDING line each and exit 0. corpus/ holds the minimised failing inputs of 110 past seeded changes, evaluated first on every run. THEOREMS.md indexes the 260 property theorems.",
 }
 json.dump(m, open(os.path.join(ROOT, "MANIFEST.json"), "w"), indent=1)
 print("MANIFEST.json:", len(checks), "checks,", len(m["not_applicable"]), "not yet claimed")
